@@ -693,12 +693,12 @@ func (m *Message) GetDialog() (string, error) {
 	}
 	if from_addr_s < to_addr_s || (from_addr_s == to_addr_s && from_tag <= to_tag) {
 		return NewDialog(callId,
-			fmt.Sprintf("%s-%s", from_tag, from_addr_s),
-			fmt.Sprintf("%s-%s", to_tag, to_addr_s)).String(), nil
+			fmt.Sprintf("%s %s", from_tag, from_addr_s),
+			fmt.Sprintf("%s %s", to_tag, to_addr_s)).String(), nil
 	} else {
 		return NewDialog(callId,
-			fmt.Sprintf("%s-%s", to_tag, to_addr_s),
-			fmt.Sprintf("%s-%s", from_tag, from_addr_s)).String(), nil
+			fmt.Sprintf("%s %s", to_tag, to_addr_s),
+			fmt.Sprintf("%s %s", from_tag, from_addr_s)).String(), nil
 
 	}
 }
